@@ -489,4 +489,596 @@ theorem open_phase3 {W : FList} {st : ExitStatus} {Lb : Bytes} {r : AReq} {e : R
       show ((e.tr.ev _).ev _).wlog ++ _ = _
       rw [Transport.ev_wlog, Transport.ev_wlog, hlog]) (Nat.le_refl _)).after hs1 (List.suffix_refl _) rfl rfl
 
+/-! ## The executor with flush answers in the measure -/
+
+open C12Inv in
+theorem steps_fl {k : Nat} {c c1 : Conn} (hs : Steps k c c1) (hp : AllProp c) :
+    c1.env.tr.fl <:+ c.env.tr.fl ∧ AllProp c1 := by
+  induction hs with
+  | refl c => exact ⟨List.suffix_refl _, hp⟩
+  | step h _ ih =>
+    have hw := stepConn_w _ hp
+    rw [h] at hw
+    obtain ⟨q1, q2⟩ := ih hw.2
+    exact ⟨q1.trans (fl_of_clean hw.1), q2⟩
+
+open C12Inv in
+/-- a poll that ends `Pending` consumed a prefix of the flush script (whole-model invariant of `Props/C12Inv`) -/
+theorem halts_pending_fl {N : Nat} {c c' : Conn} (h : Halts N c c' .pending) (hp : AllProp c) :
+    c'.env.tr.fl <:+ c.env.tr.fl ∧ AllProp c' := by
+  obtain ⟨n, c1, _, hs, hh⟩ := h
+  obtain ⟨q1, q2⟩ := steps_fl hs hp
+  have hw := stepConn_w _ q2
+  rw [hh] at hw
+  rcases hw with ⟨hc, hp'⟩ | ⟨_, hfin, _⟩
+  · exact ⟨(fl_of_clean hc).trans q1, hp'⟩
+  · cases hfin
+
+/-- `Link` without the clause that ties wake-ups to read/write answers -/
+structure LinkF (c c' : Conn) : Prop where
+  rd : c'.env.tr.rd <:+ c.env.tr.rd
+  wr : c'.env.tr.wr <:+ c.env.tr.wr
+  hold : c'.env.tr.hold = c.env.tr.hold
+  em : c'.env.tr.endMode = c.env.tr.endMode
+  inp : c'.env.tr.input.length ≤ c.env.tr.input.length
+  evm : ∀ s, s ∈ c.env.tr.events → s ∈ c'.env.tr.events
+  segs : c'.env.segs = c.env.segs
+  stop : c'.stop = c.stop
+
+theorem Link.f {c c' : Conn} (h : Link c c') : LinkF c c' :=
+  ⟨h.ts.rd, h.ts.wr, h.ts.hold, h.ts.em, h.ts.inp, h.ts.evm, h.segs, h.stop⟩
+
+theorem LinkF.ans_le {c c' : Conn} (h : LinkF c c') : ans c'.env.tr ≤ ans c.env.tr := by
+  have h1 := h.rd.length_le
+  have h2 := h.wr.length_le
+  unfold ans; omega
+
+theorem LinkF.trans {a b c : Conn} (h1 : LinkF a b) (h2 : LinkF b c) : LinkF a c :=
+  ⟨h2.rd.trans h1.rd, h2.wr.trans h1.wr, h2.hold.trans h1.hold, h2.em.trans h1.em, Nat.le_trans h2.inp h1.inp,
+    fun s hs => h2.evm s (h1.evm s hs), h2.segs.trans h1.segs, h2.stop.trans h1.stop⟩
+
+theorem LinkF.of_tf {c c' : Conn} (h : TF c.env.tr c'.env.tr) (hsg : c'.env.segs = c.env.segs) (hst : c'.stop = c.stop) :
+    LinkF c c' :=
+  ⟨h.rd, h.wr, h.hold, h.em, h.tle.input_len, fun s hs => by
+    obtain ⟨n, hn, _⟩ := h.tle.ev
+    rw [hn]; exact List.mem_append_left _ hs, hsg, hst⟩
+
+/-- `GRes3`, or the poll ends `Pending` inside a flush: the task is woken, a flush answer is consumed -/
+def GResF (S A Fn : Conn → Prop) (N : Nat) (c : Conn) : Prop :=
+  GRes3 S A Fn N c ∨
+  ∃ c', Halts N c c' .pending ∧ LinkF c c' ∧ S c' ∧ c'.env.tr.woken = true ∧ mu c'.env.tr < mu c.env.tr
+
+theorem GResF.mono {S A Fn : Conn → Prop} {N M : Nat} {c : Conn} (h : GResF S A Fn N c) (hm : N ≤ M) :
+    GResF S A Fn M c := by
+  rcases h with h | ⟨c', hh, r⟩
+  · exact Or.inl (h.mono hm)
+  · exact Or.inr ⟨c', hh.mono hm, r⟩
+
+theorem GResF.of_steps {S A Fn : Conn → Prop} {k N : Nat} {c c1 : Conn} (hs : Steps k c c1)
+    (hl : Link c c1) (hp : C12Inv.AllProp c) (h : GResF S A Fn N c1) : GResF S A Fn (k + N) c := by
+  rcases h with h | ⟨c', hh, hl2, hS, hw, ha⟩
+  · exact Or.inl (GRes3.of_steps hs hl h)
+  · refine Or.inr ⟨c', hh.of_steps hs, hl.f.trans hl2, hS, hw, ?_⟩
+    have := (steps_fl hs hp).1.length_le
+    have := hl.ts.ans_le
+    unfold mu at ha ⊢; omega
+
+theorem run_genF (S : Conn → Prop) (Q : Conn → Prop) (T : Conn → String → Prop)
+    (hcong : ∀ c c', S c → c'.phase = c.phase → c'.scripts = c.scripts → c'.stop = c.stop →
+      c'.env.mutex = c.env.mutex → TrSame c.env.tr c'.env.tr → S c')
+    (hpoll : ∀ c, S c → C12Inv.AllProp c → FlOk c.env.tr →
+      (∃ c', Halts (6 * c.env.tr.input.length + 26) c c' .pending ∧ LinkF c c' ∧ S c' ∧
+      c'.env.tr.woken = true ∧ mu c'.env.tr < mu c.env.tr) ∨ Q c)
+    (hQ : ∀ (c : Conn) (n f : Nat), S c → c.env.segs = [] → Q (prePoll c n none) → mu c.env.tr ≤ f →
+      ∃ c'' fin, runTask (f + 1) c n none = (c'', fin) ∧ T c'' fin) :
+    ∀ (A : Nat) (c : Conn) (n fuel : Nat), S c → C12Inv.AllProp c → FlOk c.env.tr → c.env.segs = [] →
+      mu c.env.tr ≤ A → A + 1 ≤ fuel →
+      ∃ c'' fin, runTask fuel c n none = (c'', fin) ∧ T c'' fin := by
+  intro A
+  induction A with
+  | zero =>
+    intro c n fuel hS hap hok hsegs hA hf
+    obtain ⟨f, rfl⟩ : ∃ f, fuel = f + 1 := ⟨fuel - 1, by omega⟩
+    obtain ⟨hsame, hph, hsc, hstop, hmx, hsg, hwk⟩ := prePoll_same c n hsegs
+    have hfl0 : (prePoll c n none).env.tr.fl = c.env.tr.fl := by rw [prePoll_nil c n hsegs]; rfl
+    have hans0 : mu (prePoll c n none).env.tr = mu c.env.tr := by unfold mu ans; rw [hsame.rd, hsame.wr, hfl0]
+    have hap0 : C12Inv.AllProp (prePoll c n none) := C12Inv.allProp_of_frame hph hsc hap
+    have hok0 : FlOk (prePoll c n none).env.tr := fun a ha => hok a (by rw [← hfl0]; exact ha)
+    rcases hpoll _ (hcong _ _ hS hph hsc hstop hmx hsame) hap0 hok0 with ⟨c', hh, hl, hS', hw, ha⟩ | hq
+    · omega
+    · exact hQ c n f hS hsegs hq (by omega)
+  | succ A ih =>
+    intro c n fuel hS hap hok hsegs hA hf
+    obtain ⟨f, rfl⟩ : ∃ f, fuel = f + 1 := ⟨fuel - 1, by omega⟩
+    obtain ⟨hsame, hph, hsc, hstop, hmx, hsg, hwk⟩ := prePoll_same c n hsegs
+    have hfl0 : (prePoll c n none).env.tr.fl = c.env.tr.fl := by rw [prePoll_nil c n hsegs]; rfl
+    have hans0 : mu (prePoll c n none).env.tr = mu c.env.tr := by unfold mu ans; rw [hsame.rd, hsame.wr, hfl0]
+    have hap0 : C12Inv.AllProp (prePoll c n none) := C12Inv.allProp_of_frame hph hsc hap
+    have hok0 : FlOk (prePoll c n none).env.tr := fun a ha => hok a (by rw [← hfl0]; exact ha)
+    rcases hpoll _ (hcong _ _ hS hph hsc hstop hmx hsame) hap0 hok0 with ⟨c', hh, hl, hS', hw, ha⟩ | hq
+    · have hpoll' := hh.pollB (Nat.le_refl _)
+      have hsg' : c'.env.segs = [] := hl.segs.trans hsg
+      obtain ⟨hfl', hap'⟩ := halts_pending_fl hh hap0
+      obtain ⟨c2, fin, h1, h2⟩ := ih c' (n + 1) f hS' hap' (hok0.suffix hfl') hsg' (by omega) (by omega)
+      refine ⟨c2, fin, ?_, h2⟩
+      rw [runTask_succ, hpoll']
+      simp only [hw, if_true]
+      exact h1
+    · exact hQ c n f hS hsegs hq (by omega)
+
+theorem run_stagesF {cap mc : Nat} (h24 : 24 ≤ cap) {Z : Bytes} {sc : List (List HOp × Bool)} {h0 : Nat} {ι : Type}
+    {P : ι → Prop} {W0 L : ι → Bytes} {evs : ι → List String}
+    (hns : ∀ i, P i → NoStuckW cap mc (W0 i))
+    (hNF : ∀ i, P i → ∀ F x, F ++ x ++ Z = W0 i → (run .header F mc).st.isFinal = false)
+    {S Fn : Conn → Prop}
+    (hcong : ∀ c c', S c → c'.phase = c.phase → c'.scripts = c.scripts → c'.stop = c.stop →
+      c'.env.mutex = c.env.mutex → TrSame c.env.tr c'.env.tr → S c')
+    (hpoll : ∀ c, S c → C12Inv.AllProp c → FlOk c.env.tr →
+      GResF S (ZTailAt cap mc Z sc h0 P W0 L evs) Fn (2 * c.env.tr.input.length + 15) c)
+    (em : EndMode) (evs0 : List String) (c : Conn) (n0 fuel : Nat) (hst : S c)
+    (hem : c.env.tr.endMode = em) (hev0 : ∀ s ∈ evs0, s ∈ c.env.tr.events)
+    (hap : C12Inv.AllProp c) (hok : FlOk c.env.tr)
+    (hsegs : c.env.segs = []) (hf : mu c.env.tr + 1 ≤ fuel) :
+    ∃ c'' fin, runTask fuel c n0 none = (c'', fin) ∧
+      (GEnd cap mc Z sc h0 P W0 L evs em evs0 (ans c.env.tr) c'' fin ∨
+       (fin = "RET" ∧ Fn c'' ∧ c''.env.tr.endMode = em ∧ (∀ s ∈ evs0, s ∈ c''.env.tr.events))) := by
+  refine run_genF
+    (fun c0 => (S c0 ∨ ZTailAt cap mc Z sc h0 P W0 L evs c0) ∧
+      c0.env.tr.endMode = em ∧ (∀ s ∈ evs0, s ∈ c0.env.tr.events) ∧ ans c0.env.tr ≤ ans c.env.tr)
+    (fun c0 => (∃ c', Halts (4 * c0.env.tr.input.length + 22) c0 c' .finished ∧ Link c0 c' ∧ Fn c') ∨ ∃ i, P i ∧
+      ((∃ c', Halts (4 * c0.env.tr.input.length + 22) c0 c' .pending ∧ Link c0 c' ∧ c'.env.tr.woken = c0.env.tr.woken ∧
+        ZT cap mc (W0 i) (L i) Z c' ∧ PKeep sc h0 (evs i) c' ∧ ZParked cap mc (W0 i) (L i) Z c') ∨
+      (∃ c', Halts (4 * c0.env.tr.input.length + 22) c0 c' .finished ∧ Link c0 c' ∧
+        PKeep sc h0 (evs i) c' ∧ ZFin mc (W0 i) (L i) Z c')))
+    (fun c'' fin => GEnd cap mc Z sc h0 P W0 L evs em evs0 (ans c.env.tr) c'' fin ∨
+       (fin = "RET" ∧ Fn c'' ∧ c''.env.tr.endMode = em ∧ (∀ s ∈ evs0, s ∈ c''.env.tr.events)))
+    (fun c0 c1 h a b c d e => by
+      refine ⟨?_, e.em.trans h.2.1, fun s hs => e.mem (h.2.2.1 s hs), by
+        have := h.2.2.2; unfold ans at this ⊢; rw [e.rd, e.wr]; exact this⟩
+      rcases h.1 with h1 | ⟨i, hi, h1, h2⟩
+      · exact Or.inl (hcong _ _ h1 a b c d e)
+      · exact Or.inr ⟨i, hi, h1.cong a c e, h2.same b d e⟩)
+    (fun c0 h hap0 hok0 => ?_)
+    (fun c0 n1 f0 hS0 hsg hq _ => ?_)
+    (mu c.env.tr) c n0 fuel ⟨Or.inl hst, hem, hev0, Nat.le_refl _⟩ hap hok hsegs (Nat.le_refl _) hf
+  · -- one poll
+    have keep : ∀ {c' : Conn}, LinkF c0 c' → c'.env.tr.endMode = em ∧ (∀ s ∈ evs0, s ∈ c'.env.tr.events) ∧
+        ans c'.env.tr ≤ ans c.env.tr :=
+      fun hl => ⟨hl.em.trans h.2.1, fun s hs => hl.evm s (h.2.2.1 s hs),
+        Nat.le_trans hl.ans_le h.2.2.2⟩
+    have up : ∀ {c' : Conn} {N : Nat}, Halts N c0 c' .pending → ans c'.env.tr < ans c0.env.tr → mu c'.env.tr < mu c0.env.tr :=
+      fun hh ha => by have := (halts_pending_fl hh hap0).1.length_le; unfold mu; omega
+    rcases h.1 with h1 | ⟨i, hi, h1, h2⟩
+    · rcases hpoll c0 h1 hap0 hok0 with ((⟨c', hh, hl, hS, hw, ha⟩ | ⟨k, c1, hk1, hs, hl, i, hi, hzt, hkp⟩) | ⟨c', hh, hl, hfn⟩) |
+          ⟨c', hh, hl, hS, hw, ha⟩
+      rotate_left 3
+      · exact Or.inl ⟨c', hh.mono (by omega), hl, ⟨Or.inl hS, keep hl⟩, hw, ha⟩
+      · exact Or.inl ⟨c', hh.mono (by omega), hl.f, ⟨Or.inl hS, keep hl.f⟩, hw, up hh ha⟩
+      · have hin1 := hl.ts.inp
+        rcases ZRes.of_steps hs hl (ztail_poll h24 (hns i hi) (hNF i hi) hzt hkp) with
+          ⟨c', hh, hl', hS, hw, ha⟩ | ⟨c', hh, r⟩ | ⟨c', hh, r⟩
+        · exact Or.inl ⟨c', hh.mono (by omega), hl'.f, ⟨Or.inr ⟨i, hi, hS⟩, keep hl'.f⟩, hw, up hh ha⟩
+        · exact Or.inr (Or.inr ⟨i, hi, Or.inl ⟨c', hh.mono (by omega), r⟩⟩)
+        · exact Or.inr (Or.inr ⟨i, hi, Or.inr ⟨c', hh.mono (by omega), r⟩⟩)
+      · exact Or.inr (Or.inl ⟨c', hh.mono (by omega), hl, hfn⟩)
+    · rcases ztail_poll h24 (hns i hi) (hNF i hi) h1 h2 with ⟨c', hh, hl', hS, hw, ha⟩ | ⟨c', hh, r⟩ | ⟨c', hh, r⟩
+      · exact Or.inl ⟨c', hh.mono (by omega), hl'.f, ⟨Or.inr ⟨i, hi, hS⟩, keep hl'.f⟩, hw, up hh ha⟩
+      · exact Or.inr (Or.inr ⟨i, hi, Or.inl ⟨c', hh.mono (by omega), r⟩⟩)
+      · exact Or.inr (Or.inr ⟨i, hi, Or.inr ⟨c', hh.mono (by omega), r⟩⟩)
+  · -- from the last poll to the end of `runTask`
+    obtain ⟨hsame, hph, hsc, hstop, hmx, hsg', hwk⟩ := prePoll_same c0 n1 hsg
+    have hN : 4 * (prePoll c0 n1 none).env.tr.input.length + 22 ≤ 6 * (prePoll c0 n1 none).env.tr.input.length + 26 := by omega
+    have keep : ∀ {c' : Conn}, Link (prePoll c0 n1 none) c' → c'.env.tr.endMode = em ∧
+        (∀ s ∈ evs0, s ∈ c'.env.tr.events) ∧ ans c'.env.tr ≤ ans c.env.tr ∧ c'.env.segs = [] :=
+      fun hl => ⟨(hl.ts.em.trans hsame.em).trans hS0.2.1, fun s hs => hl.ts.evm s (hsame.mem (hS0.2.2.1 s hs)),
+        by
+          have hans0 : ans (prePoll c0 n1 none).env.tr = ans c0.env.tr := by unfold ans; rw [hsame.rd, hsame.wr]
+          have := hl.ts.ans_le; have := hS0.2.2.2; omega, hl.segs.trans hsg'⟩
+    rcases hq with ⟨c', hh, hl, hfn⟩ | ⟨i, hi, hq⟩
+    · have hpoll' := hh.pollB hN
+      obtain ⟨k1, k2, k3, k4⟩ := keep hl
+      exact ⟨c', "RET", by rw [runTask_succ, hpoll'], Or.inr ⟨rfl, hfn, k1, k2⟩⟩
+    rcases hq with ⟨c', hh, hl, hw, hzt, hkp, hpk⟩ | ⟨c', hh, hl, hkp, hfin⟩
+    · have hpoll' := hh.pollB hN
+      have hw' : c'.env.tr.woken = false := hw.trans hwk
+      obtain ⟨k1, k2, k3, k4⟩ := keep hl
+      rw [runTask_succ, hpoll']
+      simp only [hw', Bool.false_eq_true, if_false]
+      rw [release_nil _ k4]
+      simp only [hw', Bool.false_eq_true, if_false]
+      refine ⟨_, "STALL", rfl, Or.inl ⟨i, hi, ?_⟩⟩
+      obtain ⟨F, hF, hps, hph', hlg⟩ := hpk.pst
+      exact ⟨hkp.same rfl rfl ⟨rfl, rfl, rfl, rfl, rfl, rfl, [], by simp, Quiet.nil⟩, k1, k2, k3, k4,
+        Or.inl ⟨rfl, ⟨F, hF, hps.cong rfl rfl ⟨rfl, rfl, rfl, rfl, rfl, rfl, [], by simp, Quiet.nil⟩, hph', hlg⟩,
+          hpk.inp, hpk.em⟩⟩
+    · have hpoll' := hh.pollB hN
+      obtain ⟨k1, k2, k3, k4⟩ := keep hl
+      exact ⟨c', "RET", by rw [runTask_succ, hpoll'], Or.inl ⟨i, hi, hkp, k1, k2, k3, k4, Or.inr ⟨rfl, hfin⟩⟩⟩
+
+/-! ## `readAll`, with the flush script tracked -/
+
+theorem readAll_runF {K : RCtx} (hK : K.OK) {L P : Bytes} (rest : List HOp) (ws : List (Option Writer))
+    (pr : Bool) :
+    ∀ (N fuel : Nat) (r : AReq) (sub : HSub) (e : Run.Env) (dO : Bytes) (d : Nat),
+      2 * ((K.C.length - (accOf sub).length) / 64) + 2 * e.tr.input.length + d < N → N + 1 ≤ fuel →
+      (d = 0 → Idle r.sp ∨ accOf sub = K.C) → Ben e.tr → RSt K L P r e.mutex e.tr (accOf sub) dO →
+      (∃ (r' : AReq) (acc' : Bytes) (e' : Run.Env) (dO' : Bytes),
+          handlerPoll fuel r { ops := .readAll :: rest, sub := sub, writers := ws, propagate := pr } e =
+            (r', { ops := .readAll :: rest, sub := .readAllAcc acc', writers := ws, propagate := pr }, e', .pending) ∧
+          RSt K L P r' e'.mutex e'.tr acc' dO' ∧ e'.segs = e.segs ∧ TStep e.tr e'.tr ∧
+          e'.tr.woken = true ∧ ans e'.tr < ans e.tr ∧ e'.tr.fl <:+ e.tr.fl) ∨
+      (∃ (r' : AReq) (e' : Run.Env) (fuel' : Nat),
+          handlerPoll fuel r { ops := .readAll :: rest, sub := sub, writers := ws, propagate := pr } e =
+            handlerPoll fuel' r' { ops := rest, sub := .fresh, writers := ws, propagate := pr }
+              (e'.ev (rEvent K.C)) ∧
+          fuel + 2 * e'.tr.input.length ≤ fuel' + N ∧ RSt K L P r' e'.mutex e'.tr K.C K.O ∧ r'.lock = .none ∧ e'.mutex = none ∧
+          r'.sp.pay = 0 ∧ r'.sp.pad = 0 ∧ r'.sp.raw ++ e'.tr.input = K.U ∧
+          (K.final = true → r'.writeable = true) ∧
+          e'.segs = e.segs ∧ TStep e.tr e'.tr ∧ e'.tr.fl <:+ e.tr.fl) := by
+  intro N
+  induction N with
+  | zero => intro fuel r sub e dO d hN; omega
+  | succ N ih =>
+    intro fuel r sub e dO d hN hf hd hb hs
+    obtain ⟨f, rfl⟩ : ∃ f, fuel = f + 1 := ⟨fuel - 1, by omega⟩
+    rw [hp_readAll]
+    rcases hpi : r.pollInput (some 64) e.mutex e.tr with ⟨r1, m1, t1, res⟩
+    obtain ⟨s1, s4, s5⟩ := pollInput_sim hK (by omega : 0 < 64) hb hs hpi
+    have hwo := C12Inv.pollInput_wout hpi
+    cases res with
+    | pending =>
+      left
+      obtain ⟨⟨dO', hs'⟩, hw, ha⟩ := s4
+      exact ⟨r1, accOf sub, { e with mutex := m1, tr := t1 }, dO', rfl, hs', rfl, s1, hw, ha, fl_of_wout hwo⟩
+    | err x => exact s4.elim
+    | panic x => exact s4.elim
+    | ready k dd =>
+      obtain ⟨hk, dO', hs', hlk, hm1, hor, hfull, hwr⟩ := s4
+      have hfl1 : t1.fl <:+ e.tr.fl := fl_of_wout hwo
+      subst hm1
+      cases k with
+      | zero =>
+        right
+        have hd0 : dd = [] := List.length_eq_zero_iff.1 hk.symm
+        subst hd0
+        rcases hor with hor | ⟨a1, a2, a3, a4, a5⟩
+        · omega
+        · simp only [List.append_nil] at a1 hs'
+          refine ⟨r1, { e with mutex := none, tr := t1 }, f, ?_,
+            by have := s1.tle.input_len; show f + 1 + 2 * t1.input.length ≤ f + (N + 1); omega,
+            ?_, hlk, rfl, a3, a4, a5, hwr, rfl, s1, hfl1⟩
+          · simp only [a1]
+          · rw [← a1, ← a2]; exact hs'
+      | succ k' =>
+        simp only
+        obtain ⟨G1, hi1⟩ := hs'.inv
+        have hnow := (hi1.now hK).1
+        have hlenC : (accOf sub).length + (k' + 1) ≤ K.C.length := by
+          have := congrArg List.length hnow
+          simp only [List.length_append] at this
+          omega
+        have hinle := s1.tle.input_len
+        have hdec : ∃ d1, (d1 = 0 → Idle r1.sp ∨ accOf sub ++ dd = K.C) ∧
+            2 * ((K.C.length - (accOf sub ++ dd).length) / 64) + 2 * t1.input.length + d1 < N := by
+          have hin' : d = 0 → t1.input.length < e.tr.input.length := by
+            intro h0
+            rcases hd h0 with hdr | hfin
+            · exact s5 hdr _ _ rfl
+            · rw [hfin] at hlenC; omega
+          simp only [List.length_append]
+          rcases hfull with h64 | hdr | ⟨hfin, _⟩
+          · refine ⟨1, fun h => by omega, ?_⟩
+            by_cases h0 : d = 0
+            · have := hin' h0; omega
+            · omega
+          · refine ⟨0, fun _ => Or.inl hdr, ?_⟩
+            by_cases h0 : d = 0
+            · have := hin' h0; omega
+            · omega
+          · refine ⟨0, fun _ => Or.inr hfin, ?_⟩
+            by_cases h0 : d = 0
+            · have := hin' h0; omega
+            · omega
+        obtain ⟨d1, hd1, hm1⟩ := hdec
+        rcases ih f r1 (.readAllAcc (accOf sub ++ dd)) { e with mutex := none, tr := t1 } dO' d1 hm1
+            (by omega) hd1 (hb.step s1) hs' with
+          ⟨r2, acc2, e2, dO2, d1', d3, d5, d6, d8, d9, dfl⟩ |
+          ⟨r2, e2, f2, d1', d2, d3, d4, d5, d6, d7, d8, dw, d9, d10, dfl⟩
+        · left
+          refine ⟨r2, acc2, e2, dO2, d1', d3, d5, s1.trans d6, d8, ?_, dfl.trans hfl1⟩
+          have := s1.ans_le
+          have d9' : ans e2.tr < ans t1 := d9
+          omega
+        · right
+          exact ⟨r2, e2, f2, d1', by omega, d3, d4, d5, d6, d7, d8, dw, d9, s1.trans d10, dfl.trans hfl1⟩
+
+theorem GResF.imp3 {S A A' Fn : Conn → Prop} {N : Nat} {c : Conn} (h : GResF S A Fn N c)
+    (hA : ∀ c', Link c c' → A c' → A' c') : GResF S A' Fn N c := by
+  rcases h with h | h
+  · exact Or.inl (h.imp (fun _ _ x => x) hA (fun _ _ x => x))
+  · exact Or.inr h
+
+/-! ## The connection level -/
+
+theorem wcostAll_le : ∀ W : FList, wcostAll (writesOf W) ≤ fcost W
+  | [] => Nat.le_refl _
+  | .w _ d :: W => by have := wcostAll_le W; simp only [writesOf, wcostAll, fcost]; omega
+  | .f _ :: W => by have := wcostAll_le W; simp only [writesOf, fcost]; omega
+
+/-- the handler: `readAll`, open both writers, the ops `W`, drop both, return `st` -/
+def fscriptW (W : FList) (st : ExitStatus) : List HOp := .readAll :: otailF W st
+
+/-- The hypotheses on the request. -/
+structure WFOK (g : Cfg) (W : FList) : Prop where
+  wf : WellFormedPreamble g.p g.recs
+  role : g.p.role = 1
+  pairs : ∀ q ∈ g.p.pairs, (NV.enc q).length ≤ alignedBufsize g.b
+  noise : NoiseFits (alignedBufsize g.b) g.recs
+  hb : Body g.p.id 5 g.content g.body
+  hf : NoiseFits (alignedBufsize g.b) g.body
+  hp : g.pad.length < 256
+  hX2 : g.X2 = []
+  hX : g.X = serAll g.body ++ g.term.ser
+  hU : g.U = g.term.ser
+  hs : g.hscript = fscriptW W g.st
+  /-- model fuel: a bound on the cost of the output ops only -/
+  hfu : fcost W + 20 ≤ 1000
+
+theorem WFOK.fok {g : Cfg} {W : FList} (ok : WFOK g W) : FOK g := ⟨ok.wf, ok.pairs, ok.noise⟩
+theorem WFOK.hid {g : Cfg} {W : FList} (ok : WFOK g W) : g.p.id < 65536 := (pid_of_wf ok.wf).2
+theorem WFOK.kok {g : Cfg} {W : FList} (ok : WFOK g W) : g.K.OK := resp_kok ok.hid ok.hb ok.hf ok.hp ok.hX2 ok.hX
+theorem WFOK.kfin {g : Cfg} {W : FList} (ok : WFOK g W) : g.K.final = true := by
+  simp [RCtx.final, Cfg.K, ok.role, nextInputStream, RT.stdin]
+theorem WFOK.ku {g : Cfg} {W : FList} (ok : WFOK g W) : g.K.U = g.U := by simp [Cfg.K, ok.hX2, ok.hU]
+theorem WFOK.front {g : Cfg} {W : FList} (ok : WFOK g W) {us : List Rec} (hu : LeftOK (alignedBufsize g.b) us) :
+    WFOK (g.front us) W :=
+  ⟨wf_idle ok.wf us hu.1, ok.role, ok.pairs, noiseFits_app hu.2 ok.noise, ok.hb, ok.hf, ok.hp, ok.hX2, ok.hX, ok.hU,
+    ok.hs, ok.hfu⟩
+
+/-- the `readAll` returned the content -/
+def QR (g : Cfg) (t : Transport) : Prop := rEvent g.content ∈ t.events
+theorem qr_mono (g : Cfg) : MonoQ (QR g) := ⟨fun _ _ hm h => hm _ h⟩
+
+/-- the handler in (or about to start) its `readAll` -/
+def HA3 (g : Cfg) (W : FList) (c : Conn) : Prop :=
+  ∃ r h, c.phase = .handler r h ∧ HRead g.K (otailF W g.st) g.L1 [] r h c.env ∧
+    Ben c.env.tr ∧ c.stop = false ∧ Ev1 g c.env.tr ∧ c.scripts = g.more
+
+/-- the handler in one of its output ops, its input read to the end -/
+def HWf (g : Cfg) (W : FList) (c : Conn) : Prop :=
+  ∃ r h O1, c.phase = .handler r h ∧ HW3 g.p.id W g.st (g.L1 ++ O1) h c.env ∧
+    REnd g.N r c.env.tr.input ∧ O1 ++ r.sp.output = g.Ob ∧ QR g c.env.tr ∧
+    Ben c.env.tr ∧ c.stop = false ∧ Ev1 g c.env.tr ∧ c.scripts = g.more
+
+def S0F (g : Cfg) (W : FList) (c : Conn) : Prop := FStage g c ∨ HA3 g W c ∨ HWf g W c
+
+/-- all stages: parse, read, output ops, `close` (the write stage `HWqW` of `Proofs/E2EWriters` is not reached) -/
+abbrev SFw (g : Cfg) (W : FList) : Conn → Prop := SQW g (writesOf W) (QR g) (S0F g W)
+
+abbrev RF (g : Cfg) (W : FList) (N : Nat) (c : Conn) : Prop :=
+  GResF (SFw g W) (AQW g (writesOf W) (QR g)) (FQW g (writesOf W) (QR g)) N c
+
+theorem HW3.cong {id : Nat} {W : FList} {st : ExitStatus} {Lb : Bytes} {h : HState} {e e' : Run.Env}
+    (hw : HW3 id W st Lb h e) (hm : e'.mutex = e.mutex) (hl : e'.tr.wlog = e.tr.wlog) :
+    HW3 id W st Lb h e' := by
+  obtain ⟨a, i, W', ws, c1, c2, c3⟩ := hw
+  refine ⟨a, i, W', ws, c1, c2, ?_⟩
+  rcases c3 with ⟨data, L, sent, d1, d2, d3, d4, d5⟩ | ⟨d1, d2, d3, d4⟩
+  · exact Or.inl ⟨data, L, sent, d1, by rw [hm]; exact d2, by rw [hl]; exact d3, d4, d5⟩
+  · exact Or.inr ⟨d1, ⟨d2.ty, d2.id, d2.lock, d2.wr, by rw [hm]; exact d2.mx⟩, by rw [hl]; exact d3, d4⟩
+
+theorem S0F.cong {g : Cfg} {W : FList} (c c' : Conn) (h : S0F g W c)
+    (hph : c'.phase = c.phase) (hsc : c'.scripts = c.scripts) (hstop : c'.stop = c.stop)
+    (hm : c'.env.mutex = c.env.mutex) (hs : TrSame c.env.tr c'.env.tr) : S0F g W c' := by
+  rcases h with h | ⟨r, h, h1, ⟨a1, a2, a3, dO, a4⟩, h3, h4, h5, h6⟩ | ⟨r, h, O1, h1, h2, h3, h4, h5, h6, h7, h8, h9⟩
+  · exact Or.inl (h.cong hph hsc hstop hm hs)
+  · exact Or.inr (Or.inl ⟨r, h, hph.trans h1, ⟨a1, a2, a3, dO, a4.cong hm hs⟩, hs.ben h3, hstop.trans h4, hs.ev1 h5,
+      hsc.trans h6⟩)
+  · exact Or.inr (Or.inr ⟨r, h, O1, hph.trans h1, h2.cong hm hs.wlog, by rw [hs.input]; exact h3, h4,
+      hs.mem h5, hs.ben h6, hstop.trans h7, hs.ev1 h8, hsc.trans h9⟩)
+
+/-- what a poll of the output ops comes to -/
+theorem bwrite_outF {g : Cfg} {W : FList} {c : Conn} {r0 r : AReq} {h : HState} {e0 : Run.Env}
+    {O1 : Bytes} (hph : c.phase = .handler r0 h)
+    {out : AReq × HState × Run.Env × HRes}
+    (heq : handlerPoll (handlerFuel c.env r0) r0 h c.env = out)
+    (hw : WOut3 g.p.id W g.st (g.L1 ++ O1) r e0 out)
+    (hts0 : TStep c.env.tr e0.tr) (hfl0 : e0.tr.fl <:+ c.env.tr.fl) (hsg0 : e0.segs = c.env.segs)
+    (hfin : REnd g.N r e0.tr.input) (hO : O1 ++ r.sp.output = g.Ob) (hseen : QR g e0.tr)
+    (hb : Ben c.env.tr) (hstop : c.stop = false) (hev : Ev1 g c.env.tr) (hsc : c.scripts = g.more) :
+    RF g W 3 c := by
+  obtain ⟨r', h', e', res⟩ := out
+  obtain ⟨q0, q2, q3, qf, q1, q4⟩ := hw
+  simp only at q0 q1 q2 q3 qf q4
+  subst q0
+  have htf : TF c.env.tr e'.tr := hts0.tf.trans q1
+  have hmem : ∀ s, s ∈ e0.tr.events → s ∈ e'.tr.events := fun s hs => by
+    obtain ⟨n, hn, _⟩ := q1.tle.ev
+    rw [hn]; exact List.mem_append_left _ hs
+  have hseen' : QR g e'.tr := hmem _ hseen
+  rcases q4 with ⟨rfl, hwk, hmu, hwg⟩ | ⟨rfl, hts1, hws, hm, hlog⟩
+  · have hstep := C07.handler_step c r0 h hph
+    rw [heq] at hstep
+    have hstep' : stepConn c = .halt ⟨.handler r' h', e', c.scripts, c.stop⟩ .pending := hstep
+    have hev' : Ev1 g e'.tr := by
+      obtain ⟨n, hn, hq⟩ := htf.tle.ev
+      constructor
+      · rw [hn, hsCount_append, hsCount_eq_zero hq, Nat.add_zero]; exact hev.1
+      · rw [hn]; exact List.mem_append_left _ hev.2
+    refine Or.inr ⟨_, (Halts.now hstep').mono (by omega), LinkF.of_tf htf (q3.trans hsg0) rfl,
+      Or.inl (Or.inr (Or.inr ⟨r', h', O1, rfl, hwg, by rw [q2]; exact hfin, hO, hseen', htf.ben hb, hstop,
+        hev', hsc⟩)), hwk, ?_⟩
+    show mu e'.tr < mu c.env.tr
+    have := mu_le hts0.tf hfl0
+    omega
+  · exact Or.inl (bdoneQW (qr_mono g) hph heq hws hm hlog (by rw [q2]; exact hfin) hO hseen' (hts0.trans hts1)
+      (q3.trans hsg0) hb hstop hev hsc)
+
+/-- **One poll** with the handler in one of its output ops. -/
+theorem hwf_poll {g : Cfg} {W : FList} (ok : WFOK g W) {c : Conn} (h : HWf g W c) (hok : FlOk c.env.tr) :
+    RF g W 3 c := by
+  obtain ⟨r, h, O1, hph, hw, hfin, hO, hseen, hb, hstop, hev, hsc⟩ := h
+  have hfuel := handlerFuel_ge c.env r
+  have hfu := ok.hfu
+  have hout := write_phase3 (r := r) hw hb hok (fuel := handlerFuel c.env r) (by omega)
+  exact bwrite_outF (r := r) (e0 := c.env) hph rfl hout (.refl _) (List.suffix_refl _) rfl hfin hO hseen hb hstop hev hsc
+
+/-- the rest of a poll from the handler's `readAll` on -/
+theorem ra_pollF {g : Cfg} {W : FList} (ok : WFOK g W) {c : Conn} {r : AReq} {sub : HSub} {dO : Bytes}
+    (hph : c.phase = .handler r { ops := .readAll :: otailF W g.st, sub := sub, propagate := true })
+    (hs : RSt g.K g.L1 [] r c.env.mutex c.env.tr (accOf sub) dO)
+    (hb : Ben c.env.tr) (hok : FlOk c.env.tr) (hstop : c.stop = false) (hev : Ev1 g c.env.tr) (hsc : c.scripts = g.more) :
+    RF g W 3 c := by
+  have hK := ok.kok
+  obtain ⟨G0, hi0⟩ := hs.inv
+  have hrl := hi0.rem_le hK
+  have hcapr : r.sp.cap = g.cap := hi0.capK
+  have hcapK : g.K.cap = g.cap := rfl
+  have hfu := ok.hfu
+  have hfuel : g.K.cap / 32 + 3 * c.env.tr.input.length + fcost W + 14 ≤ handlerFuel c.env r := by
+    unfold handlerFuel; rw [hcapr, hcapK]; omega
+  rcases readAll_runF hK (L := g.L1) (P := []) (otailF W g.st) [] true
+      (2 * ((g.K.C.length - (accOf sub).length) / 64) + 2 * c.env.tr.input.length + 2) (handlerFuel c.env r) r sub c.env dO 1
+      (by omega) (by omega) (fun h => by omega) hb hs with
+    ⟨r', acc', e', dO', d1, d3, d5, d6, d8, d9, dfl⟩ |
+    ⟨r', e', f', d1, d2, d3, dl, dm, d4, d5, d6, dw, d8, d9, dfl⟩
+  · have hstep := C07.handler_step c r _ hph
+    rw [d1] at hstep
+    have hstep' : stepConn c = .halt ⟨.handler r' { ops := .readAll :: otailF W g.st, sub := .readAllAcc acc', propagate := true },
+        e', c.scripts, c.stop⟩ .pending := hstep
+    exact Or.inl (Or.inl (Or.inl ⟨_, (Halts.now hstep').mono (by omega), ⟨d6.w, d5, rfl⟩,
+      Or.inl (Or.inr (Or.inl ⟨r', _, rfl, ⟨rfl, rfl, rfl, dO', d3⟩, hb.step d6, hstop, hev.step d6, hsc⟩)), d8, d9⟩))
+  · obtain ⟨G1, hi1⟩ := d3.inv
+    obtain ⟨O1, hlog1, hlog2⟩ := d3.log
+    have hs1 : TStep c.env.tr (e'.ev (rEvent g.K.C)).tr := d9.trans (TStep.ev _ (isHS_rEvent _))
+    have hfin : REnd g.N r' (e'.ev (rEvent g.K.C)).tr.input := by
+      have := REnd.of_read hi1 (dw ok.kfin) dl d4 d5 d6
+      have hN : g.K.ectx = g.N := by simp [RCtx.ectx, Cfg.N, Cfg.K, ok.hX2, ok.hU]
+      rw [hN] at this; exact this
+    have hreq : r'.sp.request = g.p.request := hi1.req
+    have hid2 : r'.sp.request.id = g.p.id := by rw [hreq]; rfl
+    have hw := open_phase3 (W := W) (st := g.st) (Lb := g.L1 ++ O1) (r := r') (e := e'.ev (rEvent g.K.C))
+      (dw ok.kfin) dm (by show (e'.tr.ev _).wlog = _; rw [Transport.ev_wlog, hlog1])
+      (hb.step hs1) (hok.suffix dfl) (fuel := f') (by have := d9.tle.input_len; omega)
+    rw [hid2] at hw
+    have hseen : QR g (e'.ev (rEvent g.K.C)).tr := by
+      show rEvent g.content ∈ e'.tr.events ++ [rEvent g.K.C]
+      simp [Cfg.K]
+    have hO : O1 ++ r'.sp.output = g.Ob := by
+      have : O1 ++ r'.sp.output = [] ++ g.K.O := hlog2
+      simpa [Cfg.K, Cfg.Ob] using this
+    exact bwrite_outF (r := r') (e0 := e'.ev (rEvent g.K.C)) (O1 := O1) hph d1 hw hs1 dfl d8 hfin hO hseen hb hstop hev hsc
+
+theorem ha_poll {g : Cfg} {W : FList} (ok : WFOK g W) {c : Conn} (h : HA3 g W c) (hok : FlOk c.env.tr) : RF g W 3 c := by
+  obtain ⟨r, ⟨ops, sub, ws, pr⟩, hph, ⟨hops, hws, hpr, dO, hs⟩, hb, hstop, hev, hsc⟩ := h
+  simp only at hops hws hpr hs
+  subst hops hws hpr
+  exact ra_pollF ok hph hs hb hok hstop hev hsc
+
+/-- the first poll of the handler -/
+theorem writersF_first {g : Cfg} {W : FList} (ok : WFOK g W) (c : Conn) (hc : FirstCfg g c) (hok : FlOk c.env.tr) :
+    RF g W 6 c := by
+  obtain ⟨e1, hph, hlen, hwire, hlog, hm, hb, hstop, hev, hsc⟩ := hc
+  have hrole : g.p.request.role = 1 := ok.role
+  have hstart : C03SI.Start g.K.E (Str.Parser.fromParser g.cap g.p.request e1 g.mc) :=
+    C03SI.start_fresh g.cap g.p.request e1 g.mc hlen ok.hid (Or.inl hrole)
+  have hrinv : RInv g.K (AReq.new (Str.Parser.fromParser g.cap g.p.request e1 g.mc)) e1 c.env.tr.input [] [] := by
+    refine ⟨hstart.mtch, hstart.inv, rfl, rfl, rfl, hwire, fun x => ?_⟩
+    have := C03SI.rem_start hstart x
+    show refWire g.K.E (e1 ++ x) = (Rem g.K.E (Str.Parser.fromParser g.cap g.p.request e1 g.mc) x).pre [] []
+    rw [this]; rfl
+  have hrst : RSt g.K g.L1 [] (AReq.new (Str.Parser.fromParser g.cap g.p.request e1 g.mc)) c.env.mutex c.env.tr [] [] :=
+    ⟨⟨e1, hrinv⟩, by rw [hm]; exact lockInv_free rfl, Or.inl hm, ⟨[], by rw [hlog, List.append_nil], rfl⟩⟩
+  rw [ok.hs] at hph
+  exact (ra_pollF ok (sub := .fresh) hph hrst hb hok hstop hev hsc).mono (by omega)
+
+theorem sfw_poll {g : Cfg} {W : FList} (ok : WFOK g W) {c : Conn} (h : SFw g W c) (hap : C12Inv.AllProp c)
+    (hok : FlOk c.env.tr) : RF g W (2 * c.env.tr.input.length + 15) c := by
+  have hfu := ok.hfu
+  have hwc := wcostAll_le W
+  rcases h with (h | h | h) | h | h
+  · rcases fstage_first ok.fok h with ⟨c', hh, hl, hS', hw, ha⟩ | ⟨k, c1, hk, hs, hl, hf⟩
+    · exact Or.inl (Or.inl (Or.inl ⟨c', hh.mono (by omega), hl, Or.inl (Or.inl hS'), hw, ha⟩))
+    · obtain ⟨hfl1, _⟩ := steps_fl hs hap
+      exact (GResF.of_steps hs hl hap (writersF_first ok c1 hf (hok.suffix hfl1))).mono (by omega)
+  · exact (ha_poll ok h hok).mono (by omega)
+  · exact (hwf_poll ok h hok).mono (by omega)
+  · exact Or.inl ((hwq_pollW (qr_mono g) (by omega) h).mono (by omega))
+  · exact Or.inl ((tq_pollW (qr_mono g) h).mono (by omega))
+
+/-- **The executor**: a Responder whose handler reads all of Stdin and then runs any sequence of `write_all` and
+`flush` calls on its two writers, over a transport with any script of `Pending`/`Ok` flush answers. -/
+theorem run_writersF {g : Cfg} {W : FList} (ok : WFOK g W) {Z : Bytes}
+    (hns : NoStuckW g.cap g.mc (g.U ++ Z))
+    (hNF : ∀ F x, F ++ x ++ Z = g.U ++ Z → (run .header F g.mc).st.isFinal = false)
+    (em : EndMode) (evs0 : List String) (c : Conn) (n0 fuel : Nat) (hst : FStage g c)
+    (hem : c.env.tr.endMode = em) (hev0 : ∀ s ∈ evs0, s ∈ c.env.tr.events)
+    (hap : C12Inv.AllProp c) (hok : FlOk c.env.tr)
+    (hsegs : c.env.segs = []) (hf : mu c.env.tr + 1 ≤ fuel) :
+    ∃ c'' fin, runTask fuel c n0 none = (c'', fin) ∧
+      (GEnd g.cap g.mc Z g.more (g.hs0 + 1)
+          (fun i : Bytes × Bytes => g.p.flags.toNat % 2 = 1 ∧ i.1 ++ i.2 = g.Ob)
+          (fun _ => g.U ++ Z) (fun i => g.Lw (writesOf W) i.1 i.2)
+          (fun _ => [hsEvent g.p.request, rEvent g.content]) em evs0 (ans c.env.tr) c'' fin ∨
+       (fin = "RET" ∧ FQW g (writesOf W) (QR g) c'' ∧ c''.env.tr.endMode = em ∧ (∀ s ∈ evs0, s ∈ c''.env.tr.events))) :=
+  run_stagesF (cap24 g) (fun _ _ => hns) (fun _ _ => hNF)
+    (fun _ _ h => SQW.cong (qr_mono g) (fun c c' h a b d e f => S0F.cong c c' h a b d e f) h)
+    (fun _ h hap hok => (sfw_poll ok h hap hok).imp3 (fun c1 _ h => by
+      obtain ⟨O1, O2, hO, q3, haf⟩ := h
+      obtain ⟨raw, hph, hw, hraw⟩ := haf.ph
+      exact ⟨(O1, O2), ⟨haf.keep, hO⟩,
+        Or.inr ⟨raw, hph, by rw [hw], hraw, haf.log, haf.ben, haf.stop⟩,
+        ⟨haf.sc, haf.mtx, haf.ev.1, fun s hs => by
+          rcases List.mem_cons.1 hs with rfl | hs
+          · exact haf.ev.2
+          · rw [List.mem_singleton.1 hs]; exact q3⟩⟩))
+    em evs0 c n0 fuel (Or.inl (Or.inl hst)) hem hev0 hap hok hsegs hf
+
+/-! ## The chain step -/
+
+/-- the request (KEEP_CONN) started from any `StartAt` of a chain: it ends parked behind its Stdin terminator, which
+the stream parser never consumed -/
+theorem serve_writersF_core {g : Cfg} {W : FList} (ok : WFOK g W) (hk : g.p.flags.toNat % 2 = 1) {left : List Rec}
+    (hleft : LeftOK (alignedBufsize g.b) left) {Z : Bytes} (hT : IdleNoise g.term)
+    (hZ : GoodNext g.cap g.mc [g.term] Z)
+    {Lw : Bytes} {evs : List String} {A0 : Nat} {c : Conn} (n0 fuel : Nat)
+    (hLw : Lw = g.L0 ++ idleOwed g.mc left)
+    (hstart : StartAt g.cap g.mc left Lw ((g.hscript, true) :: g.more) g.hs0 evs A0 g.W c)
+    (hap : C12Inv.AllProp c) (hok : FlOk c.env.tr) (hf : A0 + c.env.tr.fl.length + 1 ≤ fuel) :
+    ∃ c' O1 O2, runTask fuel c n0 none = (c', "STALL") ∧ O1 ++ O2 = g.Ob ∧ rEvent g.content ∈ c'.env.tr.events ∧
+      Waiting g.cap g.mc [g.term] ((g.front left).Lw (writesOf W) O1 O2 ++ idleOwed g.mc [g.term]) g.more (g.hs0 + 1)
+        (hsEvent g.p.request :: evs) A0 c' := by
+  have okf := ok.front hleft
+  obtain ⟨hst, hsg, hem, hans, hev, hin⟩ := fstage_of_startAt hleft hLw hstart
+  have hser : serAll [g.term] = g.term.ser := C02.serAll_single _
+  have hidle : ∀ e ∈ [g.term], IdleNoise e := fun e he => by rw [List.mem_singleton.1 he]; exact hT
+  have hU : (g.front left).U = g.term.ser := ok.hU
+  obtain ⟨c', fin, hrun, hres⟩ :=
+    run_writersF okf (Z := Z) (by rw [hU, ← hser]; exact hZ.1) (by rw [hU, ← hser]; exact hZ.2)
+      .pend evs c n0 fuel hst hem hev hap hok hsg (by unfold mu; omega)
+  rcases hres with ⟨⟨O1, O2⟩, ⟨hkp0, hO⟩, hkp, hem', hev', hans', hsg', hend⟩ |
+      ⟨_, ⟨O1, O2, _, _, hfu⟩, _, _⟩
+  · rcases hend with ⟨rfl, hp⟩ | ⟨_, hfn⟩
+    · obtain ⟨F, hF, hps, hph, hlg⟩ := hp.pst
+      have hFe : F = serAll [g.term] := by
+        rw [hser, ← hU]; exact List.append_cancel_right hF
+      subst hFe
+      have hnf : (run .header (serAll [g.term]) g.mc).st.isFinal = false := (run_idle_out g.mc _ hidle).2.2
+      have hob : (run .header (serAll [g.term]) (g.front left).mc).out = idleOwed g.mc [g.term] :=
+        (run_idle_out g.mc _ hidle).1
+      refine ⟨c', O1, O2, hrun, hO, hkp.ev _ (List.mem_cons_of_mem _ List.mem_cons_self), ⟨hph, hnf, hps.rem, hp.inp, by rw [hlg, hob],
+        ⟨(g.front left).Lw (writesOf W) O1 O2, by
+          show _ = _ ++ (run .header (serAll [g.term]) (g.front left).mc).out
+          rw [hob]⟩, hps.stop, hps.ben, hkp.sc, hkp.mx,
+        hkp.hs, ?_, hsg', hem', by omega⟩⟩
+      intro s hs
+      rcases List.mem_cons.1 hs with rfl | hs
+      · exact hkp.ev _ List.mem_cons_self
+      · exact hev' s hs
+    · rw [hfn.em] at hem'; cases hem'
+  · have := hfu.nokeep
+    have e : (g.front left).p = g.p := rfl
+    rw [e] at this
+    omega
+
 end Fcgi.E2E
